@@ -25,6 +25,7 @@ type HarnessCfg struct {
 	Covers   []string `json:"covers"`
 	Note     string   `json:"note"`
 	Optional bool     `json:"optional"`
+	Params   map[string]int `json:"params"` // size parameters read by the harness through vParam
 }
 
 type PropCfg struct {
@@ -157,7 +158,9 @@ func cmdCheck(args []string) int {
 				to = d
 			}
 		}
+		e.params = hc.Params
 		h := e.RunHarness(hc.H, hc.MaxPaths, to)
+		h.Params = hc.Params
 		runs = append(runs, h)
 		fmt.Fprintf(os.Stderr, "[%s] %s: paths=%d completed=%d pruned=%d violations=%d wall=%.1fs queries=%d\n",
 			prop, h.Name, h.Paths, h.Completed, h.Pruned, len(h.Viol), h.Wall.Seconds(), h.Solver.Queries)
@@ -203,7 +206,7 @@ func cmdCheck(args []string) int {
 		for i, v := range h.Viol {
 			tapePath := filepath.Join(replayDir, fmt.Sprintf("%s-%d.json", h.Name, i))
 			doc := map[string]interface{}{"property": prop, "harness": h.Name, "pkg": pkgDirOf(e, h), "kind": v.Kind, "label": v.Label,
-				"msg": v.Msg, "tape": v.Tape, "trail": v.Trail}
+				"msg": v.Msg, "tape": v.Tape, "trail": v.Trail, "tier": tier, "params": hc.Params}
 			jb, _ := json.MarshalIndent(doc, "", " ")
 			os.WriteFile(tapePath, jb, 0o644)
 			if *noReplay {
@@ -315,7 +318,7 @@ func writeEvidence(prop, tier string, seed int, cfg *PropCfg, runs []*HarnessRun
 			exhaustive = false
 		}
 		hdet = append(hdet, map[string]interface{}{
-			"harness": h.Name, "paths": h.Paths, "completed": h.Completed, "pruned_by_assumption": h.Pruned,
+			"harness": h.Name, "params": h.Params, "paths": h.Paths, "completed": h.Completed, "pruned_by_assumption": h.Pruned,
 			"infeasible": h.Infeas, "ended_in_panic": h.Panics, "violations": len(h.Viol), "decisions": h.Decisions,
 			"instructions": h.Steps, "wall_s": h.Wall.Seconds(), "cover_labels": h.Covers, "assertions_checked": h.Asserts,
 			"known_finding_hits": h.Known, "unsupported": h.Unsupp, "unwinding_failures": h.Limits, "truncated": h.Truncated,
@@ -506,7 +509,7 @@ func (r *Replayer) Replay(pkgDir, harness, tape string, v *Violation) (bool, str
 	}
 	cmd := exec.Command(bin, "-test.run", "^TestVerifReplay$", "-test.count=1", "-test.timeout=120s")
 	cmd.Dir = filepath.Join(r.e.repo, pkgDir)
-	env := append(goEnv(), "VERIF_TAPE="+tape, "VERIF_HARNESS="+harness, "VERIF_REPEAT=300", "VERIF_TIER="+r.e.tier)
+	env := append(goEnv(), "VERIF_TAPE="+tape, "VERIF_HARNESS="+harness, "VERIF_REPEAT=300", "VERIF_TIER="+r.e.tier, "VERIF_PARAMS="+paramsEnv(r.e.params))
 	for id := range r.e.known {
 		env = append(env, "VERIF_KNOWN_"+id+"=1")
 	}
@@ -570,7 +573,7 @@ func (r *Replayer) ValidateSamples(pkgDir, harness string, tapes [][]interface{}
 	os.WriteFile(list, []byte(strings.Join(paths, "\n")), 0o644)
 	cmd := exec.Command(bin, "-test.run", "^TestVerifReplay$", "-test.count=1", "-test.timeout=300s")
 	cmd.Dir = filepath.Join(r.e.repo, pkgDir)
-	env := append(goEnv(), "VERIF_TAPELIST="+list, "VERIF_HARNESS="+harness, "VERIF_TIER="+r.e.tier)
+	env := append(goEnv(), "VERIF_TAPELIST="+list, "VERIF_HARNESS="+harness, "VERIF_TIER="+r.e.tier, "VERIF_PARAMS="+paramsEnv(r.e.params))
 	for id := range r.e.known {
 		env = append(env, "VERIF_KNOWN_"+id+"=1")
 	}
@@ -624,7 +627,8 @@ func cmdReplay(args []string) int {
 		return 2
 	}
 	var doc struct {
-		Property, Harness, Pkg, Kind, Label, Msg string
+		Property, Harness, Pkg, Kind, Label, Msg, Tier string
+		Params                                       map[string]int
 	}
 	json.Unmarshal(b, &doc)
 	e, err := LoadEngine(*repo, filepath.Join(verifRoot, "harness"), []string{doc.Pkg})
@@ -633,6 +637,7 @@ func cmdReplay(args []string) int {
 		return 2
 	}
 	e.loadKnown(filepath.Join(verifRoot, "known_findings.json"))
+	e.tier, e.params = doc.Tier, doc.Params
 	wd, _ := os.MkdirTemp("", "symgo-replay")
 	defer os.RemoveAll(wd)
 	rp := NewReplayer(e, wd)
@@ -645,6 +650,19 @@ func cmdReplay(args []string) int {
 	}
 	fmt.Println("not reproduced")
 	return 0
+}
+
+func paramsEnv(p map[string]int) string {
+	var ks []string
+	for k := range p {
+		ks = append(ks, k)
+	}
+	sort.Strings(ks)
+	var out []string
+	for _, k := range ks {
+		out = append(out, k+"="+strconv.Itoa(p[k]))
+	}
+	return strings.Join(out, ",")
 }
 
 // ---- cross-solver re-discharge of recorded obligation queries ----
